@@ -75,6 +75,15 @@ def random_inputs(rng, count, nmin, nmax, **kw):
 
 
 # ---------------------------------------------------------------------------- per-property families
+def shaped_inputs(tier):
+    """structured families that small exhaustive and random inputs do not contain"""
+    shaped = [K.staircase(k, sf, fan) for k in range(2, 9 if tier == "quick" else 13) for sf in (True, False) for fan in (1, 2)]
+    shaped += [K.ladder(L, w, tw) for L in (3, 5, 8) for w in (2, 3) for tw in (True, False)]
+    shaped += [K.caterpillar(n, d) for n in (6, 10, 16) for d in ("out", "in")] + [K.binary_tree(k, d) for k in (3, 4) for d in ("out", "in")]
+    shaped += [K.grid(w, h) for w in (2, 3, 4) for h in (2, 3, 4)] + [K.bipartite(a, b) for a in (2, 3, 4) for b in (2, 3, 4)]
+    return shaped
+
+
 def fam_E(tier):
     return "E44" if tier == "quick" else "E45"
 
@@ -90,6 +99,8 @@ def c02_cases(tier, rng):
     rnd = random_inputs(rng, 1500 if tier == "quick" else 20000, 4, 14)
     for (n, e), cb in rotate(rnd, combos2, 1, rng):
         yield apply(n, e, cb)
+    for (n, e), cb in rotate(shaped_inputs(tier), combos2, 3, rng):
+        yield apply(n, e, cb)
 
 
 def c03_cases(tier, rng):
@@ -102,6 +113,8 @@ def c03_cases(tier, rng):
         random_inputs(rng, 1000 if tier == "quick" else 15000, 5, 30, acyclic=True, connected=True, loop_rate=0)
     for (n, e), cb in rotate(rnd, combos, 1, rng):
         yield apply(n, e, cb)
+    for (n, e), cb in rotate(shaped_inputs(tier), combos, 4, rng):
+        yield apply(n, e, cb)
 
 
 def c04_cases(tier, rng):
@@ -113,6 +126,16 @@ def c04_cases(tier, rng):
     rnd = random_inputs(rng, 2500 if tier == "quick" else 30000, 4, 30)
     for (n, e), cb in rotate(rnd, combos, 1, rng):
         yield apply(n, e, cb)
+    # structured families: the block structures that make the positioners iterate (staircases of blocks, ladders,
+    # caterpillars, trees, grids, complete bipartite layers) do not occur in small exhaustive or random inputs
+    shaped = [K.staircase(k, sf, fan) for k in range(2, 9 if tier == "quick" else 13) for sf in (True, False) for fan in (1, 2)]
+    shaped += [K.ladder(L, w, tw) for L in (3, 5, 8) for w in (2, 3) for tw in (True, False)]
+    shaped += [K.caterpillar(n, d) for n in (6, 10, 16) for d in ("out", "in")] + [K.binary_tree(k, d) for k in (3, 4) for d in ("out", "in")]
+    shaped += [K.grid(w, h) for w in (2, 3, 4) for h in (2, 3, 4)] + [K.bipartite(a, b) for a in (2, 3, 4) for b in (2, 3, 4)]
+    combos_s = grid(p1=["dfs"], p2=K.P2S, p4=K.P4_SIZE_AWARE, p5=["straight"], size=["fixed", "all", "none"], pat=["het", "wide1", "odd"], ns=[0, 2, 10])
+    for n, e in shaped:
+        for cb in combos_s:
+            yield apply(n, e, cb)
 
 
 def c05_cases(tier, rng):
@@ -124,6 +147,20 @@ def c05_cases(tier, rng):
     rnd = random_inputs(rng, 2000 if tier == "quick" else 25000, 4, 20)
     for (n, e), cb in rotate(rnd, combos, 1, rng):
         yield apply(n, e, cb)
+    yield from spline_cases(tier, rng, 500 if tier == "quick" else 3000)
+    for (n, e), cb in rotate(shaped_inputs(tier), combos, 4, rng):
+        yield apply(n, e, cb)
+
+
+def spline_cases(tier, rng, count):
+    """the spline router on the inputs where its routes can go wrong without the router aborting: several components
+    (component shift), parallel / antiparallel pairs (edges sharing their end nodes), reversed and long edges; uniform
+    sizes, because zero-size nodes make the router abort (known findings of C01)"""
+    combos = grid(p1=K.P1S, p2=K.P2S, p4=["sink", "valign", "pack", "bk"], p5=["splines"], size=["fixed"], ns=[2, 10], ls=[4, 10])
+    pool = [(n, e) for n, e, r in K.family("E44") if (r["conn"] == 0 or r["simple"] == 0) and r["loops"] == 0 and len(e) >= 3]
+    rng.shuffle(pool)
+    for (n, e), cb in rotate(pool[:count], combos, 1, rng):
+        yield apply(n, e, cb)
 
 
 def c06_cases(tier, rng):
@@ -134,6 +171,9 @@ def c06_cases(tier, rng):
         yield apply(n, e, cb)
     rnd = random_inputs(rng, 2000 if tier == "quick" else 25000, 5, 20)
     for (n, e), cb in rotate(rnd, combos, 1, rng):
+        yield apply(n, e, cb)
+    yield from spline_cases(tier, rng, 300 if tier == "quick" else 2000)
+    for (n, e), cb in rotate(shaped_inputs(tier), combos, 4, rng):
         yield apply(n, e, cb)
 
 
@@ -167,6 +207,8 @@ def c16_cases(tier, rng):
     rnd = random_inputs(rng, 2000 if tier == "quick" else 25000, 4, 30, connected=True)
     for (n, e), cb in rotate(rnd, combos, 1, rng):
         yield apply(n, e, cb)
+    for (n, e), cb in rotate(shaped_inputs(tier), combos, 4, rng):
+        yield apply(n, e, cb)
 
 
 def c11_cases(tier, rng):
@@ -177,6 +219,8 @@ def c11_cases(tier, rng):
     rnd = random_inputs(rng, 2000 if tier == "quick" else 30000, 4, 30, density=1.5) + \
         random_inputs(rng, 1000 if tier == "quick" else 20000, 5, 30, acyclic=True, connected=True, loop_rate=0)
     for (n, e), cb in rotate(rnd, combos, 1, rng):
+        yield apply(n, e, cb)
+    for (n, e), cb in rotate(shaped_inputs(tier), combos, 2, rng):
         yield apply(n, e, cb)
 
 
@@ -283,8 +327,8 @@ RULES = {
     "C11": "E(4,4)/E(4,5) x both breakers x LongestPath x two positioners, plus random multigraphs and random connected DAGs up to 30 nodes; band-from-bottom of every node compared by TLC with the longest path to a sink (GraphOps!HeightToSink) in the drawn orientation; non-trivial = a component with >= 3 nodes and >= 2 bands",
     "C02": "inputs: every canonical multigraph edge list of E(4,4) (quick) / E(4,5) (thorough) generated by TLC from Inputs.tla x rotating option grid (breakers x layerers x positioners x routers x size options x virtual-node output), plus seeded random multigraphs of 4-14 nodes; distinct by canonical list x options; non-trivial = input has a cycle, a self-loop, a parallel/antiparallel pair, or a routed edge with bends",
     "C03": "E(4,4)/E(4,5) x breakers x layerers x 5 positioners x heterogeneous heights x LayerSpacing {1,10}, plus random multigraphs and random connected DAGs up to 30 nodes; non-trivial = some component has >= 2 bands",
-    "C04": "E(4,4)/E(4,5) x breakers x layerers x the four size-aware positioners x four width/height patterns (zero sizes, one very wide node, odd widths) x NodeSpacing {0,1,10}, plus random multigraphs up to 30 nodes; non-trivial = >= 2 components or two nodes in one band",
-    "C05": "E(4,4)/E(4,5) x all positioners (incl. the four forced B&K layouts) x {straight, polyline, ortho} x size patterns, plus random multigraphs up to 20 nodes; non-trivial = a reversed edge, a long edge or >= 2 components",
+    "C04": "E(4,4)/E(4,5) x breakers x layerers x the four size-aware positioners x four width/height patterns (zero sizes, one very wide node, odd widths) x NodeSpacing {0,1,10}, plus random multigraphs up to 30 nodes, plus structured families (block staircases of 2-8/12 stages in both edge orders, ladders, caterpillars, binary trees, grids, complete bipartite graphs) x both layerers x the four positioners x size modes x NodeSpacing {0,2,10}; non-trivial = >= 2 components or two nodes in one band",
+    "C05": "E(4,4)/E(4,5) x all positioners (incl. the four forced B&K layouts) x {straight, polyline, ortho} x size patterns, plus random multigraphs up to 20 nodes, plus the spline router on 500 (thorough: 3000) lists of E(4,4) with several components or parallel/antiparallel pairs (uniform sizes; its process aborts are C01's known findings); non-trivial = a reversed edge, a long edge or >= 2 components",
     "C06": "E(4,4)/E(4,5) x size-aware positioners x {straight, polyline, ortho} x heterogeneous widths AND heights x virtual-node output, plus random multigraphs up to 20 nodes; non-trivial = a routed edge with more than two points",
     "C14": "every cyclic list of E(4,4)/E(4,5) x DepthFirst and every acyclic list x {Greedy, DepthFirst}, x both layerers, 5-node cyclic lists of E(5,5) (5000 sampled in quick, all 5-node ones in thorough), plus random multigraphs of 5-9 and up to 30 nodes; non-trivial = >= 1 reversed edge or a parallel/antiparallel pair",
     "C16": "every connected list of E(4,4)/E(4,5) x {VAlign, PackRight} x width patterns x NodeSpacing {0,1,10} with helper nodes in the output, plus random connected multigraphs up to 30 nodes; non-trivial = >= 2 bands and a band with >= 2 nodes",
@@ -337,7 +381,11 @@ def run_unary(prop, tier, seed, replay):
                 models.append(engine.netsimplex_model(work, tier))
             if prop in ("C04", "C16"):
                 models.append(engine.position_model(work, tier))
-            if prop in ("C02", "C03", "C04", "C05", "C06", "C10", "C11", "C12", "C14", "C16"):
+            if prop == "C13":
+                models.append(engine.wmedian_model(work, tier, "trees"))
+            if prop == "C12":
+                models.append(engine.wmedian_model(work, tier, "layered"))
+            if prop in ("C02", "C03", "C04", "C05", "C06", "C10", "C11", "C12", "C13", "C14", "C16"):
                 pd = engine.pipeline_diag(work, driver, cs, limit=400 if tier == "quick" else 4000)
                 if pd:
                     models.append(pd)
